@@ -270,3 +270,53 @@ def absorb(out: dict[str, Any], r: dict[str, Any], nontrivial: bool) -> None:
     for key in ("faults", "probes", "stats"):
         for a, b in r.get(key, {}).items():
             out[key][a] = out[key].get(a, 0) + b
+
+
+# ---------------------------------------------------------------------------
+# engine W runs
+# ---------------------------------------------------------------------------
+def run_w(prog: Program, knobs: Knobs, choices: Choices, nworkers: int = 2, strategy: str = "random",
+          pct_depth: int = 2, setup: Callable[[Any, Any], None] | None = None, step_cap: int = 60000,
+          extra_workers: list[Callable[[Any], Callable[[Any], None]]] | None = None) -> dict[str, Any]:
+    """One execution under the interleaving engine: ``nworkers`` threads looping process_one."""
+    from sim.engine_w import Scheduler, processor_worker
+    from sim.oracles import always_on
+
+    w = World(choices, knobs, prog)
+    sched = None
+    try:
+        w.boot()
+        eng = EngineD(w)          # only used for submit()
+        wf_id = eng.submit(prog)
+        sched = Scheduler(w, strategy=strategy, pct_depth=pct_depth, step_cap=step_cap)
+        for _ in range(nworkers):
+            sched.add(processor_worker(w))
+        for mk in extra_workers or []:
+            sched.add(mk(w))
+        if setup is not None:
+            setup(w, sched)
+        w.task_yield = lambda what: sched.yield_point("task")
+        sched.start()
+        end = sched.run()
+        errs = sched.errors()
+        stats = {"w_steps": sched.steps, "preemptions": sched.preemptions, "lock_waits": sched.lock_waits,
+                 "deadlocks_resolved": sched.deadlocks_resolved, "commits": w.commit_count, "statements": w.stmt_count}
+        sched.stop()
+        sched = None
+        w.task_yield = None
+        fs = final_state(w, wf_id)
+        h = History(w, wf_id)
+        quiescent = end == "quiescent" and not errs
+        return {"fs": fs, "h": h, "end": end, "quiescent": quiescent, "counts": ledger_counts(w),
+                "views": views_by_task(w.ledger), "ledger": list(w.ledger), "digest": history_digest(h),
+                "always": always_on(h, prog, fs, quiescent), "faults": dict(w.faults_fired), "probes": dict(w.probes),
+                "sim_us": w.clock.us - seams.EPOCH_US, "steps": stats["w_steps"], "errors": errs, "notes": list(w.notes),
+                "commits": w.commit_count, "handler_calls": dict(w.handler_calls), "handler_log": list(w.handler_log),
+                "wf_id": wf_id, "stats": stats, "crash_marks": []}
+    finally:
+        if sched is not None:
+            try:
+                sched.stop()
+            except Exception:
+                pass
+        w.close()
